@@ -2,7 +2,10 @@ use crate::util::Tier;
 
 pub mod c01;
 pub mod c05;
+pub mod c06;
+pub mod c08;
 pub mod c09;
+pub mod c10;
 pub mod c11;
 pub mod c12;
 pub mod c18;
@@ -11,16 +14,18 @@ pub mod c20;
 pub mod selftest;
 
 pub fn dispatch(id: &str, tier: Tier, seed: u64, rest: &[String]) -> i32 {
-    let _ = rest;
     match id {
         "selftest" => selftest::main(),
         "C01" => c01::main(tier, seed),
         "C05" => c05::main(tier, seed),
+        "C06" => c06::main(tier, seed),
+        "C08" => c08::main(tier, seed, rest),
         "C09" => c09::main(tier, seed),
         "C12" => c12::main(tier, seed),
         "C20" => c20::main(tier, seed),
         "C19" => c19::main(tier, seed),
         "C18" => c18::main(tier, seed),
+        "C10" => c10::main(tier, seed),
         "C11" => c11::main(tier, seed),
         _ => {
             eprintln!("unknown check {id}");
